@@ -174,23 +174,27 @@ Definition frag_numbers (ws : list owire) : list Z :=
 
 Definition subset (a b : list Z) : bool := forallb (fun x => zmem x b) a.
 
-(* walk ops and observations together.
+(* walk ops and observations together; `part` selects the clause that is judged
+     0: (2) what the writer emits per sample
+     1: (4)+(3) for the reader's own NACK_FRAG fed back to the writer
+     2: (3) for forged NACK_FRAGs
    sn = next sequence number, last = highest NACK_FRAG count the writer has been given so far,
    reply = the reader's last reply as the implementation produced it *)
-Fixpoint walk (rel : bool) (nreaders f : Z) (ws : list bytes) (ops : list op) (os : list oobs)
+Fixpoint walk (part : Z) (rel : bool) (nreaders f : Z) (ws : list bytes) (ops : list op) (os : list oobs)
          (sn last : Z) (reply : option (acknack * option nackfrag)) : bool :=
   match ops, os with
   | [], [] => true
   | OWrite p :: t, VSent x :: t' =>
-      sent_ok nreaders sn f p x && walk rel nreaders f ws t t' (sn + 1) last reply
-  | ODeliver _ _ _ :: t, VCount _ :: t' => walk rel nreaders f ws t t' sn last reply
-  | OForeign _ :: t, VCount _ :: t' => walk rel nreaders f ws t t' sn last reply
+      ((negb (part =? 0)) || sent_ok nreaders sn f p x) && walk part rel nreaders f ws t t' (sn + 1) last reply
+  | ODeliver _ _ _ :: t, VCount _ :: t' => walk part rel nreaders f ws t t' sn last reply
+  | OForeign _ :: t, VCount _ :: t' => walk part rel nreaders f ws t t' sn last reply
   | OHb _ _ _ _ :: t, VReply x :: t' =>
-      walk rel nreaders f ws t t' sn last (match x with Some y => Some y | None => reply end)
+      walk part rel nreaders f ws t t' sn last (match x with Some y => Some y | None => reply end)
   | ONackFrag :: t, VResp x _ :: t' =>
       (* (4) a NACK_FRAG the reader produced must not be filtered as a duplicate when the writer has
          processed no NACK_FRAG before, and (3) the fragments resent are the requested ones *)
-      (match reply with
+      ((negb (part =? 1)) ||
+       match reply with
        | Some (_, Some nf) =>
            if rel && (last =? 0) then
              match nth_written ws (n_sn nf) with
@@ -204,23 +208,24 @@ Fixpoint walk (rel : bool) (nreaders f : Z) (ws : list bytes) (ops : list op) (o
            else true
        | _ => true
        end)
-      && walk rel nreaders f ws t t' sn
+      && walk part rel nreaders f ws t t' sn
               (match reply with Some (_, Some nf) => Z.max last (Z.max 1 (n_count nf)) | _ => last end) reply
   | OForged count s base set :: t, VResp x _ :: t' =>
       (* (3) NACK_FRAG numbering: a fresh NACK_FRAG for fragments N of an available fragmented sample is
-         answered with exactly the fragments N (as a set) *)
-      (if rel && (last <? count) then
-         match nth_written ws s with
-         | Some p =>
-             if (s <? sn) && (f <? blen p) then
-               subset (filter (fun n => (1 <=? n) && (n <=? div_ceil (blen p) f)) (base :: set)) (frag_numbers x)
-               && subset (frag_numbers x) (base :: set)
-             else true
-         | None => true
-         end
-       else true)
-      && walk rel nreaders f ws t t' sn (Z.max last count) reply
-  | OAckNack :: t, VResp _ _ :: t' => walk rel nreaders f ws t t' sn last reply
+         answered with exactly the fragments N (as a set; the base may be answered as well) *)
+      ((negb (part =? 2)) ||
+       (if rel && (last <? count) then
+          match nth_written ws s with
+          | Some p =>
+              if (s <? sn) && (f <? blen p) then
+                subset (filter (fun n => (1 <=? n) && (n <=? div_ceil (blen p) f)) set) (frag_numbers x)
+                && subset (frag_numbers x) (base :: set)
+              else true
+          | None => true
+          end
+        else true))
+      && walk part rel nreaders f ws t t' sn (Z.max last count) reply
+  | OAckNack :: t, VResp _ _ :: t' => walk part rel nreaders f ws t t' sn last reply
   | _, _ => false
   end.
 
@@ -232,11 +237,14 @@ Definition o_identity (c : C05_case) : bool :=
   | Ok (_, ch) => identical_from (written (c_ops c)) (foreign_sns (c_ops c)) 0 ch
   | _ => true
   end.
-Definition o_walk (c : C05_case) : bool :=
+Definition o_part (part : Z) (c : C05_case) : bool :=
   match c_out c with
-  | Ok (os, _) => walk (c_rel c) (c_nreaders c) (c_f c) (written (c_ops c)) (c_ops c) os 1 0 None
+  | Ok (os, _) => walk part (c_rel c) (c_nreaders c) (c_f c) (written (c_ops c)) (c_ops c) os 1 0 None
   | _ => true
   end.
+Definition o_sent (c : C05_case) : bool := o_part 0 c.     (* (2) emission *)
+Definition o_nack (c : C05_case) : bool := o_part 1 c.     (* (4) first NACK_FRAG processed, answered right *)
+Definition o_forged (c : C05_case) : bool := o_part 2 c.   (* (3) NACK_FRAG numbering *)
 Definition o_fair (c : C05_case) : bool :=
   match c_out c with
   | Ok (_, ch) => if c_fair c then all_delivered (written (c_ops c)) ch else true
@@ -245,7 +253,7 @@ Definition o_fair (c : C05_case) : bool :=
 Definition o_nopanic (c : C05_case) : bool := match c_out c with Panic _ => false | _ => true end.
 
 Definition C05_oracle_ok (c : C05_case) : bool :=
-  o_nopanic c && o_identity c && o_walk c && o_fair c.
+  o_nopanic c && o_identity c && o_sent c && o_forged c && o_nack c && o_fair c.
 
 (* ------------------------------------------------------- known-finding classes
    1 C05-nackfrag-count-zero      the reader's NACK_FRAG always carries count 0, the writer's
@@ -262,8 +270,6 @@ Definition has_fsize0 (ops : list op) : bool :=
 Definition has_second_reader_delivery (c : C05_case) : bool :=
   (2 <=? c_nreaders c) &&
   existsb (fun o => match o with ODeliver _ _ w => negb (w =? 1) | _ => false end) (c_ops c).
-Definition has_forged (ops : list op) : bool :=
-  existsb (fun o => match o with OForged _ _ _ _ => true | _ => false end) ops.
 (* the implementation's own trace shows a reader NACK_FRAG with count 0 *)
 Definition impl_nf_count0 (c : C05_case) : bool :=
   match c_out c with
@@ -278,7 +284,8 @@ Definition C05_known (c : C05_case) : N :=
     if has_fsize0 (c_ops c) && ((model_panic_site c =? 28) || (model_panic_site c =? 299)) then 3%N
     else if model_panic_site c =? 123 then 4%N else 0%N
   else if negb (o_identity c) then (if has_second_reader_delivery c then 5%N else 0%N)
-  else if negb (o_walk c) then
-    (if has_forged (c_ops c) then 2%N else if impl_nf_count0 c then 1%N else 0%N)
+  else if negb (o_sent c) then 0%N
+  else if negb (o_forged c) then 2%N
+  else if negb (o_nack c) then (if impl_nf_count0 c then 1%N else 0%N)
   else if negb (o_fair c) then (if impl_nf_count0 c then 1%N else 0%N)
   else 0%N.
